@@ -584,6 +584,7 @@ def run_one(spec: dict) -> dict:
                 h = handles.pop(op[1], None)
                 if h is not None and h.done:
                     h.real = None
+                    h.shim = None
                     del h
                     with no_preempt():
                         gc.collect()
